@@ -318,8 +318,8 @@ fn main() {
              boundary value of every type of the families types+lib{} plus {} hand-written objects, nodes down to depth {}; non-trivial = the node \
              serves at least one child. (b) navigation: a state is a distinct (object, Debug form of the Introspector) reached by breadth-first \
              search over command sequences of length <= {} from Introspector::new() and new_with(0..=3); the alphabet of a state is derived from \
-             the result of `Nothing` in that state (ExpandElement depth 0..=D+1 x observed keys+\"?\" x disambiguator 0..=2, SelectNth depth \
-             0..=D+1 x index 0..=W+1 (boundary representatives for frames wider than 6), Up, Nothing); non-trivial = an expanded state whose \
+             the result of `Nothing` in that state (ExpandElement depth {{0..=D+1, usize::MAX}} x observed keys+\"?\" x disambiguator {{0,1,2,usize::MAX}}, SelectNth depth \
+             {{0..=D+1, usize::MAX}} x index {{0..=W+1, usize::MAX}} (boundary representatives for frames wider than 6), Up, Nothing); non-trivial = an expanded state whose \
              result has at least 2 frames. distinct_nontrivial = nodes with children + such states.",
             if thorough { "+types_thorough" } else { "" },
             run.get("struct_objects"),
